@@ -848,6 +848,24 @@ def list_fill(ex, paths, fn, value, elem_ty_rx=None):
                 else:
                     skipped += 1
         return {"form": "push", "base": sorted(bases), "elements": els, "skipped": skipped, "other": other}
+    # form C: a vector created empty and extended once by a whole collection (`v.extend(src)`, `v.extend_from_slice(&src)`): every
+    # element of the source, unchanged, in order
+    if value[0] == "app" and re.search(r"^mut:.*(Extend>::extend|::extend_from_slice|^mut:extend|extend)$", str(value[1])) and len(value[2]) == 2:
+        old, src = value[2]
+        if old[0] == "app" and re.search(r"Vec::<.*>::(new|with_capacity)$", str(old[1])):
+            n_ = 0
+            p0 = paths[0] if paths else None
+            while n_ < 6:
+                n_ += 1
+                if src[0] == "ref" and p0 is not None:
+                    src = ex.deref_val(p0, src)
+                elif src[0] == "app" and len(src[2]) == 1 and re.search(r"iter::IntoIterator>::into_iter$|<impl \[.*\]>::iter$|Iterator>::(cloned|copied)(::<.*>)?$|Vec::<.*>::as_slice$|Deref>::deref$", str(src[1])):
+                    src = src[2][0]
+                else:
+                    break
+            if src[0] == "sym":
+                it = ("sym", "item@extend")
+                return {"form": "extend", "base": [S.fstr(src)], "elements": [(it, it, p0)], "skipped": 0, "other": []}
     return None
 
 
@@ -867,6 +885,80 @@ def helper_is_body_of(facts, base):
                 out.append(k_)
         memo[base.key] = out
     return memo[base.key]
+
+
+_GLUE_RX = r"(ops::Deref(Mut)?>::deref(_mut)?|ops::Try>::branch|ops::FromResidual<.*>>::from_residual)$"
+
+
+def _summary(F, fn):
+    """What a function computes, independent of how its parameters are passed: per path the conditions, how it ends, the value
+    returned, the calls of other functions and the writes — references, dereferences and copies (`clone`, `to_vec`, ..) removed,
+    parameters named by position."""
+    try:
+        ex, paths = run_fn(fn, F, BaseModel(), max_paths=300)
+    except Exception:
+        return None
+    if ex.truncated or not paths:
+        return None
+    names = [fn.names().get(i) for i in range(1, fn.argc + 1)]
+
+    def nz(t):
+        s_ = re.sub(r"&|\*|mut:", "", t)
+        for i, n in enumerate(names):
+            if n:
+                s_ = re.sub(r"(?<![\w.])%s\b" % re.escape(n), "P%d" % i, s_)
+        return s_
+    rows = set()
+    for p in paths:
+        conds = tuple(sorted("%s=%s" % (nz(S.fstr(c)), o) for c, o in p.conds))
+        endv = nz(S.fstr(p.end[1])) if p.end and p.end[0] == "return" else ""
+        calls = tuple(nz(S.fstr(e[4]) if (e[4] is not None and e[4][0] == "app") else "%s(%s)" % (M.short_name(e[2]), ",".join(S.fstr(a) for a in (e[7] if len(e) > 7 and e[7] else e[3])))) for e in p.events
+                      if e[0] == "call" and not re.search(_GLUE_RX, e[2]) and not re.search(COPY_RX, e[2]) and not S.IDENTITY_CALLS.search(e[2]))
+        writes = tuple(sorted(nz("%s.%s:=%s" % (S.fstr(w[0]), field_path(w[1]), S.fstr(w[2]))) for w in heap_writes(p)))
+        rows.add((conds, p.end[0] if p.end else None, endv, calls, writes))
+    return rows
+
+
+def find_twins(F):
+    """{name of a later-added function: name of the known function it is a twin of}.  A twin sits in the same impl / module, takes
+    as many parameters and has the same summary (`_summary`): `try_from_scanner_mode_ref(&mode, ..)` written next to
+    `try_from_scanner_mode(mode, ..)` so that a caller need not clone.  Calls of a twin are read as calls of the known function
+    (whose body the rules check); a helper that differs in any path, value, call or write is not a twin and is analysed in place
+    like every other unknown helper."""
+    voc = S.vocabulary()
+    out = {}
+    known = {}
+    for k in F.fns.values():
+        if k.kind != "Closure" and k.name in voc and not k.j.get("exp"):
+            known.setdefault((k.name.rsplit("::", 1)[0], k.argc), []).append(k)
+    memo = {}
+    for h in sorted(F.fns.values(), key=lambda f: f.name):
+        if h.kind == "Closure" or h.name in voc or h.j.get("exp") or is_derived(h) or h.name in M.ALIASES.values():
+            continue
+        bo = helper_is_body_of(F, h)
+        if len(bo) == 1 and bo[0].argc == h.argc:
+            # a known function does nothing but hand its parameters to h: h is that function's body under another name, and a
+            # call of h from anywhere else is a call of the known function
+            out[h.name] = bo[0].name
+            for b_, t_ in bo[0].calls():
+                if call_is(t_, h):
+                    t_["no_twin"] = True
+            continue
+        cands = known.get((h.name.rsplit("::", 1)[0], h.argc), [])
+        if not cands:
+            continue
+        sh = _summary(F, h)
+        if not sh:
+            continue
+        hit = []
+        for k in cands:
+            if k.key not in memo:
+                memo[k.key] = _summary(F, k)
+            if memo[k.key] and memo[k.key] == sh:
+                hit.append(k)
+        if len(hit) == 1:
+            out[h.name] = hit[0].name
+    return out
 
 
 def fn_items_of(F, fn):
@@ -909,14 +1001,36 @@ def delegates_mir(fn, other):
     for a in t["args"]:
         e = pv.operand(a)
         n_ = 0
-        while e[0] in ("ref", "deref") or (e[0] == "call" and len(e[2]) == 1 and re.search(COPY_RX, str(e[1]))):
-            e = e[1] if e[0] in ("ref", "deref") else e[2][0]
+        while e[0] in ("ref", "deref") or (e[0] == "call" and len(e[2]) == 1 and re.search(COPY_RX, str(e[1]))) or (e[0] == "field" and str(e[2]) == "0" and _is_newtype_param(fn, e[1])):
+            # (`&self.0`: the one field of a newtype parameter is the parameter without its wrapper)
+            e = e[1] if e[0] in ("ref", "deref", "field") else e[2][0]
             n_ += 1
             if n_ > 8:
                 return False
         if e[0] not in ("arg", "const"):
             return False
     return True
+
+
+def _is_newtype_param(fn, e):
+    """e (a Prov term) is a parameter — behind references — whose type is a tuple struct with exactly one field"""
+    n_ = 0
+    while e[0] in ("ref", "deref") and n_ < 6:
+        e = e[1]
+        n_ += 1
+    if e[0] != "arg":
+        return False
+    ty = re.sub(r"^(&\s*('\w+\s+)?(mut\s+)?)+", "", fn.locals[e[1]]["ty"] if isinstance(e[1], int) and e[1] < len(fn.locals) else "")
+    F = getattr(fn, "facts", None)
+    adts = getattr(F, "adts", None) if F is not None else None
+    if not adts:
+        return False
+    a = adts.get(ty.split("<")[0])
+    try:
+        fs = a["variants"][0]["fields"]
+        return str(a.get("kind")).lower() == "struct" and len(fs) == 1 and str(fs[0].get("name")) == "0"
+    except Exception:
+        return False
 
 
 def delegates_to(F, fn, other):
